@@ -435,8 +435,39 @@ fn element_ev(h: &str, el: &Element<'_, '_>) -> Ev {
     }
 }
 
+/// The two public settings types take handlers through the same three builder methods.
+pub trait HandlerHost<'h>: Sized {
+    fn add_el(self, sel: Selector, h: ElementContentHandlers<'h>) -> Self;
+    fn add_doc(self, h: DocumentContentHandlers<'h>) -> Self;
+    fn add_bail(self, f: Box<dyn FnMut(&RewritingError, &mut BailOut<'_>) + 'h>) -> Self;
+}
+
+impl<'h> HandlerHost<'h> for Settings<'h, 'static> {
+    fn add_el(self, sel: Selector, h: ElementContentHandlers<'h>) -> Self {
+        self.append_element_content_handler((Cow::Owned(sel), h))
+    }
+    fn add_doc(self, h: DocumentContentHandlers<'h>) -> Self {
+        self.append_document_content_handler(h)
+    }
+    fn add_bail(self, mut f: Box<dyn FnMut(&RewritingError, &mut BailOut<'_>) + 'h>) -> Self {
+        self.append_bail_out_handler(move |e: &RewritingError, b: &mut BailOut<'_>| f(e, b))
+    }
+}
+
+impl<'h> HandlerHost<'h> for lol_html::RewriteStrSettings<'h, 'static> {
+    fn add_el(self, sel: Selector, h: ElementContentHandlers<'h>) -> Self {
+        self.append_element_content_handler((Cow::Owned(sel), h))
+    }
+    fn add_doc(self, h: DocumentContentHandlers<'h>) -> Self {
+        self.append_document_content_handler(h)
+    }
+    fn add_bail(self, mut f: Box<dyn FnMut(&RewritingError, &mut BailOut<'_>) + 'h>) -> Self {
+        self.append_bail_out_handler(move |e: &RewritingError, b: &mut BailOut<'_>| f(e, b))
+    }
+}
+
 pub fn build_settings<'h>(cfg: &Cfg, sh: &Sh) -> Result<Settings<'h, 'static>, String> {
-    let mut st = Settings::new()
+    let st = Settings::new()
         .with_encoding(AsciiCompatibleEncoding::new(cfg.encoding).ok_or("non-ascii-compatible encoding")?)
         .with_strict(cfg.strict)
         .with_enable_esi_tags(cfg.esi)
@@ -448,6 +479,15 @@ pub fn build_settings<'h>(cfg: &Cfg, sh: &Sh) -> Result<Settings<'h, 'static>, S
                 .with_preallocated_parsing_buffer_size(cfg.prealloc)
                 .with_graceful_bail_out_on_memory_limit_exceeded(cfg.graceful_mem),
         );
+    add_handlers(st, cfg, sh)
+}
+
+/// `RewriteStrSettings` carrying the same handlers, `strict` and `enable_esi_tags` (its only options).
+pub fn build_str_settings<'h>(cfg: &Cfg, sh: &Sh) -> Result<lol_html::RewriteStrSettings<'h, 'static>, String> {
+    add_handlers(lol_html::RewriteStrSettings::new().with_strict(cfg.strict).with_enable_esi_tags(cfg.esi), cfg, sh)
+}
+
+fn add_handlers<'h, S: HandlerHost<'h>>(mut st: S, cfg: &Cfg, sh: &Sh) -> Result<S, String> {
     for (i, s) in cfg.sels.iter().enumerate() {
         let sel: Selector = s.sel.parse().map_err(|e| format!("selector {:?}: {e}", s.sel))?;
         let mut h = ElementContentHandlers::default();
@@ -500,7 +540,7 @@ pub fn build_settings<'h>(cfg: &Cfg, sh: &Sh) -> Result<Settings<'h, 'static>, S
                 apply_comment(&sh2, &hid2, c, &d)
             });
         }
-        st = st.append_element_content_handler((Cow::Owned(sel), h));
+        st = st.add_el(sel, h);
     }
     for (i, d) in cfg.docs.iter().enumerate() {
         let mut h = DocumentContentHandlers::default();
@@ -561,16 +601,16 @@ pub fn build_settings<'h>(cfg: &Cfg, sh: &Sh) -> Result<Settings<'h, 'static>, S
                 Ok(())
             });
         }
-        st = st.append_document_content_handler(h);
+        st = st.add_doc(h);
     }
     for (i, b) in cfg.bail_outs.iter().enumerate() {
         let (sh2, content) = (sh.clone(), b.clone());
-        st = st.append_bail_out_handler(move |err: &RewritingError, bo: &mut BailOut<'_>| {
+        st = st.add_bail(Box::new(move |err: &RewritingError, bo: &mut BailOut<'_>| {
             sh2.borrow_mut().events.push(Ev::BailOut { h: format!("b{i}"), err: ErrKind::from(err).short().to_string() });
             if let Some(c) = &content {
                 bo.append(c, ContentType::Html);
             }
-        });
+        }));
     }
     Ok(st)
 }
@@ -692,6 +732,35 @@ pub fn run_with(chunks: &[&[u8]], cfg: &Cfg, poke_after_error: bool, between: &m
         injected: s.injected,
         injected_where: s.injected_where,
         sink_calls_at_error,
+    }
+}
+
+/// The one-shot entry point `lol_html::rewrite_str` with the same handler configuration (it
+/// forces UTF-8 and ignores `<meta charset>`): result kind, output and events. The caller passes
+/// valid UTF-8 and a UTF-8 / adjust_charset=false configuration to compare with `run`.
+pub fn run_str(input: &str, cfg: &Cfg) -> (Result<(), ErrKind>, Vec<u8>, Vec<Ev>) {
+    run_str_via(input, cfg, false)
+}
+
+/// `via_str_settings`: pass a `RewriteStrSettings` (handlers, strict, enable_esi_tags only)
+/// instead of a full `Settings`.
+pub fn run_str_via(input: &str, cfg: &Cfg, via_str_settings: bool) -> (Result<(), ErrKind>, Vec<u8>, Vec<Ev>) {
+    let sh: Sh = Rc::new(RefCell::new(Shared { fail_at: cfg.fail_at, ..Default::default() }));
+    let sh_outer = sh.clone();
+    let res = crate::engine::guard(|| -> Result<String, ErrKind> {
+        if via_str_settings {
+            let settings = build_str_settings(cfg, &sh).map_err(ErrKind::Handler)?;
+            lol_html::rewrite_str(input, settings).map_err(|e| ErrKind::from(&e))
+        } else {
+            let settings = build_settings(cfg, &sh).map_err(ErrKind::Handler)?;
+            lol_html::rewrite_str(input, settings).map_err(|e| ErrKind::from(&e))
+        }
+    });
+    let events = std::mem::take(&mut sh_outer.borrow_mut().events);
+    match res {
+        Ok(Ok(s)) => (Ok(()), s.into_bytes(), events),
+        Ok(Err(e)) => (Err(e), vec![], events),
+        Err(p) => (Err(ErrKind::Panic(p)), vec![], events),
     }
 }
 
